@@ -698,10 +698,10 @@ def get_FTCorrelationFunction(self, temperature=None):
             raise Exception("Temperature of all components has to be the same")
         k += H_kinc
         newpars.append(prms)
-    ind_of_zero, diff = self.axis.locate(0.0)
     atol = H_atol
     twokbt = H_twokbt
     with energy_units("int"):
+        ind_of_zero, diff = self.axis.locate(0.0)
         if numpy.abs(diff) > atol:
             vals = H_direct
         else:
